@@ -23,6 +23,13 @@ instant is computed from them (`GoTime.unix`).  Core Lean only; structural recur
 -/
 namespace GenesisFile
 
+instance {ε α : Type} [DecidableEq ε] [DecidableEq α] : DecidableEq (Except ε α) := fun a b =>
+  match a, b with
+  | .ok x, .ok y => if h : x = y then isTrue (h ▸ rfl) else isFalse (fun e => by cases e; exact h rfl)
+  | .error x, .error y => if h : x = y then isTrue (h ▸ rfl) else isFalse (fun e => by cases e; exact h rfl)
+  | .ok _, .error _ => isFalse (fun e => by cases e)
+  | .error _, .ok _ => isFalse (fun e => by cases e)
+
 /-! ## time -/
 
 /-- Unix seconds of Go's zero `time.Time` (0001-01-01T00:00:00Z) -/
